@@ -6,7 +6,8 @@ import json, os, subprocess, sys, re, glob
 os.chdir(os.path.dirname(os.path.dirname(os.path.abspath(__file__))))
 tier = sys.argv[1] if len(sys.argv) > 1 else "quick"
 names = sys.argv[2:] or sorted(os.path.basename(os.path.dirname(p)) for p in glob.glob("seeded/*/meta.json"))
-EXTRA = {"C04-1": ["C14"], "C09-3": ["C14"], "C09-4": ["C06"], "C20-6": ["C07"], "C10-6": ["C14"], "C08-6": ["C06"], "C17-5": ["C13", "C18"], "C18-4": ["C13"], "C18-6": ["C13"]}   # changes whose mechanism lies in another property's code
+EXTRA = {"C04-1": ["C14"], "C09-3": ["C14"], "C09-4": ["C06"], "C20-6": ["C07"], "C10-6": ["C14"], "C08-6": ["C06"], "C17-5": ["C13", "C18"], "C18-4": ["C13"], "C18-6": ["C13"],
+         "C01-8": ["C03"], "C08-7": ["C06"], "C10-8": ["C12"], "C15-7": ["C14"], "C04-8": ["C14"], "C09-7": ["C07"]}   # changes whose mechanism lies in another property's code
 rows = []
 for n in names:
     meta = json.load(open("seeded/%s/meta.json" % n))
